@@ -200,6 +200,20 @@ func init() {
 			externals[k] = v
 		}
 	}
+	// unicode class predicates on a symbolic rune: uninterpreted predicate of the
+	// rune (over-approximation: sound for totality claims; a counterexample that
+	// depends on it is confirmed or rejected by the native replay)
+	for _, name := range []string{"IsLetter", "IsDigit", "IsSpace", "IsUpper", "IsLower", "IsPrint", "IsGraphic", "IsPunct", "IsControl", "IsNumber", "IsSymbol", "IsMark", "IsTitle"} {
+		nm := "unicode." + name
+		uf := "uf_unicode_" + name
+		externals[nm] = func(fr *frame, a []value) (value, bool) {
+			s, ok := a[0].(*sym)
+			if !ok {
+				return nil, false
+			}
+			return fr.i.mkval(types.Bool, fr.i.ctx.App(uf, smt.Bool, s.t)), true
+		}
+	}
 	for name, f := range map[string]func(float64) float64{
 		"Sqrt": math.Sqrt, "Floor": math.Floor, "Ceil": math.Ceil, "Trunc": math.Trunc, "Exp": math.Exp,
 		"Log": math.Log, "Log2": math.Log2, "Log10": math.Log10, "Sin": math.Sin, "Cos": math.Cos, "Tan": math.Tan,
